@@ -40,6 +40,11 @@ def generate(rng):
         return scn
     if rng.random() < 0.25:
         scn = interact_fam.generate(rng)
+        if scn.get('late_log') or rng.random() < 0.25:
+            scn['logs'] = []
+            scn['late_log'] = True            # no log at entry, a read log attached from the output filter during the session
+            scn.setdefault('late_at', rng.choice([1, 2, 3]))
+            return scn
         scn['logs'] = rng.choice([['logfile'], ['logfile_read', 'logfile_send'], ['logfile_read'], ['logfile_send']])
         return scn
     return sendlog.generate(rng, 'C11')
